@@ -592,7 +592,7 @@ func c18JoinShape(c *Check, ci *chrootInfo) {
 		if !ok {
 			continue
 		}
-		v := ret.Results[0]
+		v := retVal(ret, 0)
 		if s, isC := constString(v); isC && s == "" {
 			continue // error return
 		}
@@ -740,7 +740,7 @@ func c18AllowShape(c *Check, ci *chrootInfo) {
 				continue
 			}
 			t := iff.Block().Succs[0]
-			if ret, ok := t.Instrs[len(t.Instrs)-1].(*ssa.Return); ok && len(ret.Results) == 1 && !isNilConst(ret.Results[0]) {
+			if ret, ok := t.Instrs[len(t.Instrs)-1].(*ssa.Return); ok && len(ret.Results) == 1 && !isNilConst(retVal(ret, 0)) {
 				found = true
 			}
 		}
@@ -779,7 +779,7 @@ func rejectsParentByAtoms(f *ssa.Function, rel *ssa.Call) bool {
 	rejectsIn := func(cond ssa.Value) bool {
 		for _, br := range branchesOn(cond) {
 			t := br.TrueSucc
-			if ret, ok := t.Instrs[len(t.Instrs)-1].(*ssa.Return); ok && len(ret.Results) == 1 && !isNilConst(ret.Results[0]) {
+			if ret, ok := t.Instrs[len(t.Instrs)-1].(*ssa.Return); ok && len(ret.Results) == 1 && !isNilConst(retVal(ret, 0)) {
 				return true
 			}
 		}
@@ -865,8 +865,8 @@ func rejectsParentByAtoms(f *ssa.Function, rel *ssa.Call) bool {
 		var phis []*ssa.Phi
 		for _, b := range h.Blocks {
 			if ret, isRet := b.Instrs[len(b.Instrs)-1].(*ssa.Return); isRet && len(ret.Results) == 1 {
-				returned[ret.Results[0]] = true
-				if ph, isPhi := ret.Results[0].(*ssa.Phi); isPhi {
+				returned[retVal(ret, 0)] = true
+				if ph, isPhi := retVal(ret, 0).(*ssa.Phi); isPhi {
 					phis = append(phis, ph)
 					for _, e := range ph.Edges {
 						returned[e] = true
@@ -893,7 +893,7 @@ func rejectsParentByAtoms(f *ssa.Function, rel *ssa.Call) bool {
 					}
 				}
 				if ret, isRet := br.TrueSucc.Instrs[len(br.TrueSucc.Instrs)-1].(*ssa.Return); isRet && len(ret.Results) == 1 {
-					if cv, isC := ret.Results[0].(*ssa.Const); isC && cv.Value != nil && cv.Value.String() == "true" {
+					if cv, isC := retVal(ret, 0).(*ssa.Const); isC && cv.Value != nil && cv.Value.String() == "true" {
 						return true
 					}
 				}
